@@ -994,6 +994,8 @@ func (x *Exec) runOne(sc *Scenario, st *Step) Ev {
 		"obs": emptyObs, "dig": 0, "a": Ev{"_": 0}, "race": 0, "conc": 0}
 	calls0 := atomic.LoadInt64(&callCount)
 	x.cur = sc
+	watchStep(sc, x.scn, x.step)
+	defer unwatchStep()
 	func() {
 		defer func() {
 			ev["calls"] = int(atomic.LoadInt64(&callCount) - calls0)
